@@ -376,6 +376,45 @@ func genPfJournal(r *rng) pfJournal {
 		}
 		j = append(j, t)
 	}
+	if r.chance(35) {
+		// full liquidation: on a day two thirds into the window one security's whole position in
+		// Assets:Broker is sold (or, if it is short, bought back), so that its value is exactly zero
+		// afterwards (seeded change C20-stale-liquidated-commodity needs a commodity that leaves
+		// the portfolio while period ends follow)
+		c := pick(r, secs)
+		ld := d0.AddDate(0, 0, p.days*2/3)
+		net := 0
+		for _, d := range j {
+			if d.Kind != 'T' || d.Date > dateStr(ld) {
+				continue
+			}
+			for _, b := range d.Bookings {
+				if b.Com != c {
+					continue
+				}
+				var q int
+				if _, err := fmt.Sscanf(b.Qty, "%d", &q); err != nil || fmt.Sprintf("%d", q) != b.Qty {
+					net = 1 << 40 // a fractional quantity: give up
+					break
+				}
+				if b.Debit == "Assets:Broker" {
+					net += q
+				}
+				if b.Credit == "Assets:Broker" {
+					net -= q
+				}
+			}
+		}
+		if net != 0 && net < 1<<30 && net > -(1<<30) {
+			t := Dir{Kind: 'T', Date: dateStr(ld), Desc: "Liquidate " + c}
+			if net > 0 {
+				t.Bookings = []Booking{{"Equity:Trading", "Assets:Bank", fmt.Sprintf("%.2f", float64(net)*priceOf(c)), hub}, {"Assets:Broker", "Equity:Trading", fmt.Sprintf("%d", net), c}}
+			} else {
+				t.Bookings = []Booking{{"Assets:Bank", "Equity:Trading", fmt.Sprintf("%.2f", float64(-net)*priceOf(c)), hub}, {"Equity:Trading", "Assets:Broker", fmt.Sprintf("%d", -net), c}}
+			}
+			j = append(j, t)
+		}
+	}
 	r.shuffle(len(j), func(a, b int) { j[a], j[b] = j[b], j[a] })
 	p.j = j
 	// universe: classes for some of the commodities
